@@ -300,6 +300,15 @@ fn parse_v_model_directive(
         value = attr_value.clone();
     }
 
+    if !value.is_ident_ref_to("") && !is_assignment_target(&value) {
+        HANDLER.with(|handler| {
+            handler.span_err(
+                jsx_attr.span,
+                "The expression bound by `v-model` must be assignable (an identifier or a member expression).",
+            );
+        });
+    }
+
     Directive::VModel(VModelDirective {
         argument: argument.clone(),
         transformed_argument: if !is_component
@@ -325,6 +334,18 @@ fn parse_v_model_directive(
         modifiers: modifiers.and_then(|modifiers| transform_modifiers(modifiers, is_component)),
         value,
     })
+}
+
+fn is_assignment_target(expr: &Expr) -> bool {
+    match expr {
+        Expr::Ident(..) | Expr::Member(..) | Expr::SuperProp(..) => true,
+        Expr::Paren(ParenExpr { expr, .. })
+        | Expr::TsAs(TsAsExpr { expr, .. })
+        | Expr::TsNonNull(TsNonNullExpr { expr, .. })
+        | Expr::TsSatisfies(TsSatisfiesExpr { expr, .. })
+        | Expr::TsTypeAssertion(TsTypeAssertion { expr, .. }) => is_assignment_target(expr),
+        _ => false,
+    }
 }
 
 fn transform_modifiers(modifiers: BTreeSet<Atom>, quote_prop: bool) -> Option<Expr> {
